@@ -16,6 +16,9 @@ mod alloc;
 #[path = "../calls.rs"]
 mod calls;
 #[allow(dead_code)]
+#[path = "../firstuse.rs"]
+mod firstuse;
+#[allow(dead_code)]
 #[path = "../sink.rs"]
 mod sink;
 
